@@ -21,6 +21,7 @@ EXPLANATION = (
     "grounded with label_all / avoid_name_clash / keep_order switched on unless the user passes the corresponding opt-out flag (all store_true, "
     "default off) - the flags to_prolog documents as required."
     " Added after seed round 6: U5 memo-key rule over the export path (to_prolog call closure): a memoised value is keyed by every argument the callee reads (positive example matched on every run); U6 enum_clauses writes a disjunct unless extract_ads consumed it and it has no name of its own."
+    " Added after seed round 7: U7 to_prolog re-defines a deterministic query / evidence atom with its own truth value and writes the observed polarity of evidence (scenario tables; helper methods evaluated under the same scenario)."
 )
 TECHNIQUE = "static analysis: decision table of the DIMACS writer loop (every internal clause emitted once), writer/counter pairing, wiring rules of the ground task"
 LEVEL_TEXT = EXPLANATION
@@ -411,6 +412,40 @@ def rule_u7(repo, col):
                     mapping = [("is_ground(%s)" % qn, True), ("self.is_true(%s)" % qi, t_), ("self.is_false(%s)" % qi, f_), ("%s.is_negated()" % qn, ng)]
                     if v is not None:
                         mapping.append((qv, v))
+                    # helper methods that compute a line (or None) from the loop variables: evaluated under the same scenario (inlining bound 1)
+                    repl = {}
+                    cls_ = f.cls
+                    helper_calls = set()
+                    for p0 in paths:
+                        for src0 in [s_ for s_, _, _ in p0.conds] + [a0 for fn0, as0, _ in p0.calls for a0 in as0]:
+                            try:
+                                e0 = ast.parse(src0, mode="eval").body
+                            except SyntaxError:
+                                continue
+                            for x0 in ast.walk(e0):
+                                if isinstance(x0, ast.Call) and isinstance(x0.func, ast.Attribute) and norm(x0.func.value) == "self" and cls_ is not None and x0.func.attr in cls_.methods \
+                                        and x0.func.attr.startswith("_") and not x0.keywords:
+                                    helper_calls.add(norm(x0))
+                    for hc in sorted(helper_calls):
+                        ce_ = ast.parse(hc, mode="eval").body
+                        h = cls_.methods[ce_.func.attr]
+                        hp = [p_ for p_ in h.params if p_ != "self"]
+                        if len(hp) != len(ce_.args):
+                            continue
+                        ren = dict(zip(hp, [norm(a_) for a_ in ce_.args]))
+                        vals = set()
+                        for q in dtable.extract(h.node, opaque_loops=True):
+                            conds_ = [(dtable.subst(ast.parse(s_, mode="eval").body, ren), t_) for s_, t_, _ in q.conds]
+                            if all(dtable.eval_atom(s_, mapping, None) in (t_,) for s_, t_ in conds_):
+                                vals.add(dtable.subst(ast.parse(q.value, mode="eval").body, ren) if q.end == "return" and q.value is not None else "None")
+                        if len(vals) != 1:
+                            raise AnalysisError("to_prolog: helper %s is not decided by the scenario (%d values)" % (hc, len(vals)))
+                        hv = vals.pop()
+                        if hv == "None":
+                            mapping.append((hc, None))
+                        else:
+                            mapping += [("%s is None" % hc, False), ("%s is not None" % hc, True)]
+                            repl[hc] = hv
                     ps = dtable.feasible(paths, mapping)
                     if len(ps) != 1:
                         raise AnalysisError("to_prolog: %d paths of the %s loop for one scenario" % (len(ps), kind))
@@ -418,6 +453,7 @@ def rule_u7(repo, col):
                     for fn, a, _ in ps[0].calls:
                         if fn != "lines.append" or not a:
                             continue
+                        a = [repl.get(a[0], a[0])] + list(a[1:])
                         tx = fold_text(ast.parse(a[0], mode="eval").body, {"-%s" % qn: "\x00NEG\x00", "abs(%s)" % qn: "\x00ABS\x00", qn: "\x00Q\x00"})
                         if tx is None:
                             raise AnalysisError("to_prolog: emitted line not foldable: %s" % a[0][:60])
